@@ -71,7 +71,7 @@ def read_ase(path):
 
 
 # ------------------------------------------------------------------ setups
-def setup(engine, root, masses_idx, pos, vel, temperature, int_masses=False, ase_integ=None):
+def setup(engine, root, masses_idx, pos, vel, temperature, int_masses=False, ase_integ=None, tmd_dim=3):
     """Build the engine and a source frame. Returns (eng, source file, masses[amu or reduced], reader, extra)."""
     n = len(pos)
     els = [EL[i % len(EL)] for i in masses_idx]
@@ -113,7 +113,7 @@ def setup(engine, root, masses_idx, pos, vel, temperature, int_masses=False, ase
         return eng, src, amu, read_ase, {"names": els}
     if engine == "turtlemd":
         red = np.array([1.0 + (i % 4) for i in masses_idx], dtype=float)
-        eng = ek.make_turtlemd(root, [int(m) for m in red] if int_masses else [float(m) for m in red], pos, temperature=temperature, boltzmann=1.0)
+        eng = ek.make_turtlemd(root, [int(m) for m in red] if int_masses else [float(m) for m in red], pos, temperature=temperature, boltzmann=1.0, dim=tmd_dim)
         src = os.path.join(src_dir, "frame.xyz")
         from infretis.classes.engines.engineparts import write_xyz_trajectory
 
@@ -149,6 +149,8 @@ def call_cases(draw):
         "ase_integ": draw(st.sampled_from(["velocityverlet", "langevin", "langevin-fixcm"])),
         # the phase point may carry a kinetic energy from the MD program's own log (other units, other precision)
         "stored_ekin": draw(st.sampled_from([None, None, 7777.25])),
+        # TurtleMD systems of lower dimension (1D double well, 2D): the xyz frames still carry three velocity columns
+        "tmd_dim": draw(st.sampled_from([3, 3, 1, 2])),
     }
 
 
@@ -157,7 +159,7 @@ def body_call(rec, c):
     root = isolate.mkscratch("vel_")
     try:
         T = c["temperature"] if engine != "turtlemd" else c["temperature"] / 300.0
-        eng, src, masses, reader, extra = setup(engine, root, c["masses_idx"], c["pos"], c["vel"], T, c.get("int_masses", False), c.get("ase_integ"))
+        eng, src, masses, reader, extra = setup(engine, root, c["masses_idx"], c["pos"], c["vel"], T, c.get("int_masses", False), c.get("ase_integ"), c.get("tmd_dim", 3))
         eng.rgen = np.random.default_rng(c["seed"])
         vs = {"zero_momentum": c["zero_momentum"]} if c["zero_momentum"] is not None else {}
         src_bytes = open(src, "rb").read()
